@@ -46,8 +46,8 @@ CHECKS = {
     ),
     'C05': dict(
         level='exploration',
-        batches=[dict(scenario='c05conf', flavour='P', quick=12000, thorough=300000), dict(scenario='c05conf', flavour='A', quick=3000, thorough=60000)],
-        rule='same session generator as C02 biased to small windows (windowLog 10-16 on inputs up to 2 MiB quick / 8 MiB thorough so window expiry is crossed constantly), dictionaries, MT every 7th run; every frame on the wire goes to the independent decoder + frame walker; distinct = distinct plan signature; non-trivial = at least 3 compression calls',
+        batches=[dict(scenario='c05conf', flavour='P', quick=12000, thorough=300000), dict(scenario='c05conf', flavour='A', quick=3000, thorough=60000), dict(scenario='c17seq', flavour='P', quick=6000, thorough=200000)],
+        rule='(third batch: the C17 scenario c17seq, whose valid-parse runs send sequence-level compression, including blocks with exactly K sequences around the 127/128 and 0x7F00 encodings of Number_of_Sequences, through the same conformance oracle) same session generator as C02 biased to small windows (windowLog 10-16 on inputs up to 2 MiB quick / 8 MiB thorough so window expiry is crossed constantly), dictionaries, MT every 7th run; every frame on the wire goes to the independent decoder + frame walker; distinct = distinct plan signature; non-trivial = at least 3 compression calls',
         real=REAL_COMMON, stub=['independent decoder: vendored educational decoder (enforces offset <= window / dictionary reach), own frame walker, own XXH64', 'transport, allocator, pthread primitives'],
         assumptions=['the vendored educational decoder is the specification oracle R', 'interoperability rules checked: compressed block smaller than its content, no RLE first block followed by more blocks; the sub-4-byte sequence-section rule is not checked (would need table-level parsing)'],
     ),
